@@ -404,6 +404,9 @@ inductive GoodCall : LeafCall → Shape → Shape → Prop
       GoodCall (.permute p) bs (p.map (fun i => bs.getD i 0))
   | view (sh bs : Shape) : prod sh = prod bs → sh ≠ bs → GoodCall (.view sh bs.length) bs sh
   | reshape (sh bs : Shape) : prod sh = prod bs → sh ≠ bs → GoodCall (.reshape sh bs.length) bs sh
+  | expand (sh bs : Shape) : bs.length ≤ sh.length →
+      (∀ i, i < bs.length → bs.getD i 0 = 1 ∨ sh.getD (sh.length - bs.length + i) 0 = bs.getD i 0) →
+      GoodCall (.expand sh bs.length) bs sh
 
 /-- public entry point; a bare leaf is not a tensordict -/
 def tdOp {α : Type} (op : Op) : TD α → Except Err (TD α)
